@@ -292,6 +292,11 @@ func (res *CheckResult) checkFnCallArity(fnCall *parser.FnCall) {
 		for index, arg := range validArgs {
 			lastElemIndex := len(sig) - 1
 			if index > lastElemIndex {
+				// surplus arguments have no expected type, but the variables they
+				// mention are still uses (and may be undeclared)
+				for _, surplusArg := range validArgs[index:] {
+					res.checkExpression(surplusArg, TypeAny)
+				}
 				break
 			}
 
